@@ -23,6 +23,52 @@ def enum_variants(prog, suffix):
     return {x["discr"]: x["name"] for x in v[0]["variants"]}
 
 
+def _split_top(s):
+    out, depth, cur = [], 0, ""
+    for ch in s:
+        if ch in "<([":
+            depth += 1
+        elif ch in ">)]":
+            depth -= 1
+        if ch == "," and depth == 0:
+            out.append(cur.strip())
+            cur = ""
+        else:
+            cur += ch
+    if cur.strip():
+        out.append(cur.strip())
+    return out
+
+
+def place_ty(prog, fn, place):
+    """type string of a place (tuple and struct fields, derefs); None when not resolvable"""
+    ty = fn.local_ty(place[0])
+    for p in place[1:]:
+        if ty is None:
+            return None
+        ty = ty.strip()
+        if p == "*":
+            m = re.match(r"^&(?:'\w+ )?(?:mut )?(.*)$", ty)
+            if not m:
+                return None
+            ty = m.group(1)
+        elif isinstance(p, list) and p[0] == "f":
+            if ty.startswith("(") and ty.endswith(")"):
+                parts = _split_top(ty[1:-1])
+                ty = parts[p[1]] if p[1] < len(parts) else None
+            else:
+                base = re.sub(r"<.*$", "", ty)
+                cands = [a for k, a in prog.adts.items()
+                         if a["name"] == base or k.endswith("::" + base)]
+                if len(cands) != 1 or len(cands[0]["variants"]) != 1:
+                    return None
+                fields = cands[0]["variants"][0]["fields"]
+                ty = fields[p[1]][1] if p[1] < len(fields) else None
+        else:
+            return None
+    return ty
+
+
 class Switch:
     """a SwitchInt with, per arm, the blocks only that arm reaches"""
 
@@ -73,7 +119,12 @@ def cpu_dispatchers(prog):
                 base = t[1]
                 # type of the scrutinee
                 for (bb, j, rv, w) in f.defs().get(t[1][1][0], []):
-                    if rv[0] == "discr" and "CpuExtensions" in f.local_ty(rv[1][0]):
+                    if rv[0] != "discr":
+                        continue
+                    pty = place_ty(prog, f, rv[1])
+                    if pty is None:
+                        pty = f.local_ty(rv[1][0])
+                    if re.sub(r"^&(?:mut )?", "", pty.strip()).endswith("CpuExtensions"):
                         out.append(Switch(f, b))
     return out
 
